@@ -184,6 +184,44 @@ func corpus(e *ev.Env) {
 			}
 		})
 	}
+	// keys that end in _GET / _HEAD / _POST / _body: method and key spaces stay apart
+	for _, vs := range []bool{false, true} {
+		name := "keys-with-method-and-body-suffixes-memory"
+		if vs {
+			name = "keys-with-method-and-body-suffixes-vstore"
+		}
+		e.Corpus(name, func(c *ev.Case) {
+			cf := conf{Exp: 5, VStore: vs, StoreHdr: true, Methods: []string{"GET", "HEAD", "POST"}, KeyGen: 1}
+			m := func(method, key string, status, size int) step {
+				return step{Q: rq{Method: method, Key: key, Status: status, Size: size, Enc: true}}
+			}
+			st := []step{m("GET", "r_HEAD", 203, 120), m("HEAD", "r", 200, 40), m("HEAD", "r", 200, 40), m("GET", "r_HEAD", 200, 1),
+				m("GET", "r", 200, 300), m("GET", "r_body", 404, 77), m("GET", "r", 200, 1), m("GET", "r_body", 200, 1),
+				m("POST", "r", 200, 55), m("GET", "r_POST", 410, 66), m("POST", "r", 200, 1), m("GET", "r_POST", 200, 1),
+				m("GET", "r_GET", 200, 90), m("GET", "r_GET_body", 301, 30), m("GET", "r", 200, 1), m("GET", "r_GET", 200, 1), m("GET", "r_GET_body", 200, 1),
+				m("HEAD", "r_body", 200, 10), m("GET", "r_body_HEAD", 200, 20), m("HEAD", "r_body", 200, 1)}
+			runHistory(e, c, cf, st, false)
+		})
+	}
+	// a storage that keeps the slices it is given: several keys with differing metadata
+	e.Corpus("storage-keeps-slices", func(c *ev.Case) {
+		cf := conf{Exp: 5, VStore: true, KeepSlices: true, StoreHdr: true, MaxBytes: 4096}
+		m := func(key string, status, size int, enc bool) step {
+			return step{Q: rq{Method: "GET", Key: key, Status: status, Size: size, Enc: enc}}
+		}
+		st := []step{m("aaaa", 200, 100, true), m("bbbb", 404, 300, false), m("cc", 203, 20, true), m("aaaa", 200, 1, false), m("bbbb", 200, 1, false),
+			m("cc", 200, 1, false), m("dddddd", 410, 0, true), m("aaaa", 200, 1, false), m("cc", 200, 1, false), m("dddddd", 200, 1, false)}
+		g := runHistory(e, c, cf, st, false)
+		hits := 0
+		for _, q := range g.reqs {
+			if q.Mark == "hit" {
+				hits++
+			}
+		}
+		if hits < 6 {
+			e.Inconclusive("storage-keeps-slices control produced too few hits")
+		}
+	})
 	// CacheInvalidator returns true for a key the external storage does not hold: manager.get
 	// hands out a zero item (heapidx 0), the middleware marks it expired and removes heap index 0.
 	e.Corpus("invalidator-absent-entry-empty-heap", func(c *ev.Case) {
